@@ -44,7 +44,7 @@ Step ==
        THEN /\ attempts' = <<>> /\ started' = <<>> /\ ended' = {} /\ running' = {} /\ closeRet' = FALSE
             /\ UNCHANGED <<viol, cnt>>
        ELSE LET ps == Preds(e) IN
-            /\ viol' = viol \cup Failures(ps, e, l)
+            /\ viol' = Merge(viol, Failures(ps, e, l))
             /\ cnt'  = Count(cnt, ps)
             /\ attempts' = IF e.ev = "enq" THEN Append(attempts, <<e.op, e.acc, closeRet, e.kind>>) ELSE attempts
             /\ started'  = IF e.ev = "start" THEN Append(started, e.op) ELSE started
